@@ -99,20 +99,26 @@ def frame_events(k, low_score=False):
     return ev
 
 
-def canon(tracker):
-    """Canonical tracker state: (current_tracks, queue content as (track_id, animal) tuples)."""
+def canon(tracker, with_frames=False):
+    """Canonical tracker state: (current_tracks, queue content as (track_id, animal) tuples).
+    with_frames=True adds each entry's frame index (needed when positions drift with the frame, C10).
+    Within one fixed-window entry the (track, animal) pairs are sorted: the tracker looks entries up by track id
+    (`track_ids.index`), never by position, so the order inside an entry cannot influence any later step."""
     cand = tracker.candidate
     cur = tuple(int(t) for t in cand.current_tracks)
     if tracker.is_local_queue:
         q = tuple(
-            (int(tid), tuple(which_animal(t.feature) for t in dq))
+            (int(tid), tuple((which_animal(t.feature), t.frame_idx if with_frames else 0) for t in dq))
             for tid, dq in sorted(cand.tracker_queue.items())
         )
     else:
         q = tuple(
-            tuple(
-                (None if tid is None else int(tid), which_animal(f))
-                for tid, f in zip(e.track_ids, e.features)
+            (e.frame_idx if with_frames else 0,)
+            + tuple(
+                sorted(
+                    ((-1 if tid is None else int(tid)), which_animal(f))
+                    for tid, f in zip(e.track_ids, e.features)
+                )
             )
             for e in cand.tracker_queue
         )
